@@ -107,7 +107,7 @@ def run(ctx):
                     refs.append((o, which, S))
             vals = ctx.coq_eval_sharded('pit', ['Plinio.Model.Masks', 'Plinio.Model.CostGrad'], '', exprs, shard=40) if exprs else []
             for (o, which, S), v in zip(refs, vals):
-                ((cn, cd), (on, od), grads) = v
+                (cn, cd, (on, od), grads) = v
                 mval, morig = Fraction(cn, cd), Fraction(on, od)
                 case = {'kind': 'pit', 'seed': o['seed'], 'style': o['style'], 'arch': o['arch'], 'spec': which}
                 ctx.corr += 2
